@@ -200,20 +200,25 @@ def v3_data_packet(proto, ctr, data):
     return proto._encode_encrypted_request(ctr, data)
 
 
+NO_LEAK = {"no_consumer_left_behind": "pending_getters(self._queue) == 0"}
+
 contract(V3 + ".read",
          params={"self": "obj:" + V3, "timeout": "int[0,60]"},
          rtype="bytes", cancellation=True,
          modifies=["self._queue"],
-         raises={LAN + "ProtocolError": {}, "builtins.TimeoutError": {"when": "timeout != 0"},
-                 "asyncio.QueueEmpty": {"when": "timeout == 0"}, "asyncio.CancelledError": {"when": "timeout != 0"}},
-         notes="C09: whatever was queued, reading it ends in decoded bytes, a protocol error or a timeout")
+         raises={LAN + "ProtocolError": {"post": NO_LEAK}, "builtins.TimeoutError": {"when": "timeout != 0", "post": NO_LEAK},
+                 "asyncio.QueueEmpty": {"when": "timeout == 0", "post": NO_LEAK}, "asyncio.CancelledError": {"when": "timeout != 0"}},
+         ensures=NO_LEAK,
+         notes="C09: whatever was queued, reading it ends in decoded bytes, a protocol error or a timeout; "
+               "C08: a read that timed out leaves nothing behind that would take the next packet away from the next read")
 
 contract(LAN + "_LanProtocol.read",
          params={"self": "obj:" + LAN + "_LanProtocol", "timeout": "int[0,60]"},
          rtype="bytes", cancellation=True,
          modifies=["self._queue"],
-         raises={"builtins.TimeoutError": {"when": "timeout != 0"}, "asyncio.QueueEmpty": {"when": "timeout == 0"},
-                 "asyncio.CancelledError": {"when": "timeout != 0"}})
+         raises={"builtins.TimeoutError": {"when": "timeout != 0", "post": NO_LEAK}, "asyncio.QueueEmpty": {"when": "timeout == 0", "post": NO_LEAK},
+                 "asyncio.CancelledError": {"when": "timeout != 0"}},
+         ensures=NO_LEAK)
 
 contract(V3 + ".authenticate",
          params={"self": "obj:" + V3, "token": "opt:bytes", "key": "opt:bytes[32]"},
@@ -340,8 +345,8 @@ contract(LANC + ".authenticate",
          cancellation=True, emits={"phase": "'handshake'"},
          modifies=["self._token", "self._key", "self._protocol", "self._protocol_version", "self._connection_expiration", "self._protocol.*"],
          let={"tok": "self._token if (token is None or key is None) else token", "k": "self._key if (token is None or key is None) else key",
-              "old_retries": "retries"},
-         post_let={"T": "events('tx')"},
+              "old_retries": "retries", "was_alive": "alive_spec(self)", "was_v3": "isinstance(self._protocol, _LanProtocolV3)"},
+         post_let={"T": "events('tx')", "PH": "events('phase')"},
          raises={LAN + "ProtocolError": {"post": {"stored_credentials_not_replaced": "self._token == old(self._token) and self._key == old(self._key)",
                                                  "recoverable": "lan_inv(self)",
                                                  "only_handshake_requests_sent": "all_handshakes(events('tx'), tok)"}},
@@ -352,7 +357,10 @@ contract(LANC + ".authenticate",
          ensures={"credentials_stored": "self._token == tok and self._key == k",
                   "v3_session": "isinstance(self._protocol, _LanProtocolV3) and self._protocol._local_key is not None and lan_inv(self)",
                   "only_handshake_requests_sent": "all_handshakes(T, tok)",
-                  "at_least_one_at_most_retries": "1 <= len(T) <= retries"},
+                  "at_least_one_at_most_retries": "1 <= len(T) <= retries",
+                  # C07: a handshake never goes out on a dead, expired or non-V3 connection: that one is replaced first
+                  "reconnects_unless_on_a_live_v3_connection": "('connect' in PH) == (not was_alive or not was_v3)",
+                  "handshake_goes_out_on_the_current_connection": "all(same_object(t, self._protocol._transport) for t in events('tx_on'))"},
          loops={"0": {"match": "retries > 0", "ghost_init": {"n": "0"}, "havoc": {"n": "int[0,8]"},
                       "modifies": ["self._protocol._local_key", "self._protocol._local_key_expiration", "self._protocol._packet_id", "self._protocol._queue"],
                       "invariant": ["n == old_retries - retries", "1 <= retries", "lan_inv(self)", "isinstance(self._protocol, _LanProtocolV3)"],
@@ -507,7 +515,7 @@ contract(LAN + "_Packet.decode#marker_tamper",
 
 
 # ---- every connection starts with state of its own (C07: session state never survives a reconnect; C04: one buffer per connection) ----
-from pyvc.dsl import has_own
+from pyvc.dsl import has_own, pending_getters
 
 contract(LAN + "_LanProtocol.__init__",
          params={"self": "new:" + LAN + "_LanProtocol"},
